@@ -14,7 +14,7 @@ META = {
         "&mut Vec; (R04.3) pop2/pop3/discard compare the size with their arity before the first removal and report Underflow{requested = arity, present = size}; top* take &self; "
         "(R04.4) order: top = last, top2 = (last, len-2), top3 = (last, len-2, len-3), popN tuples follow pop order, push_many extends with the reversed iterator, try_extend extends, then "
         "reverses exactly the new tail or truncates back to the saved length on overflow, discard(n) pops n times; (R04.5) panic audit of the stack API. NOT decided: histories of arbitrary "
-        "length (follow from the per-operation clauses by induction, argued) and Vec's own correctness."),
+        "length (follow from the per-operation clauses by induction, argued) and Vec's own correctness. R04.2 also reports any whole-value overwrite of an existing Stack<_> outside Stack's own impls (assignment through a reference or into a field, mem::take/replace/swap): it replaces max_stack_size together with the values; Stack::default is the unbounded empty stack."),
     "rules": {
         "R04.1": "capacity guards are inequalities with exact thresholds (push, is_full, push_many, try_extend); failing insertions write nothing (or roll back)",
         "R04.2": "field ownership: private fields; writers of values / max_stack_size; no &mut Vec escape",
